@@ -164,6 +164,7 @@ def worker(args):
                         if len(part["samples"]) < 2: part.sample({"part": "completion", "class": cls, "line": l, "character": c, "context": text.encode()[max(0, off - 40):off + 20].decode(errors="replace")}, 2)
                 except (ServerDied, Timeout, FrameError) as e:
                     feat.died(part, e, "completion request (%s)" % cls, sc, sess)
+    feat.report(part)
     sess.kill()
     return part
 
